@@ -12,12 +12,16 @@ its /24 (for `limit ≥ 1`). -/
 theorem ipFilter_spec (limit : Nat) (hl : 1 ≤ limit) (v : Val) (s : Nat) (hs : v.subnet = some s)
     (others : List Val) :
     ipFilter limit v others = decide (subnetCount s (others.filter (· ≠ v)) < limit) := by
-  sorry
+  unfold ipFilter
+  rw [hs]
+  simp only []
+  rw [Ip.ipCountLoop_spec limit v s others 0 hl, Nat.zero_add]
 
 /-- Nodes without an IPv4 address are never refused by the IP filters. -/
 theorem no_ip4_never_refused (limit : Nat) (v : Val) (hs : v.subnet = none) (others : List Val) :
     ipFilter limit v others = true := by
-  sorry
+  unfold ipFilter
+  rw [hs]
 
 /-- With IP limiting enabled every table operation preserves: at most 2 nodes of one /24 per
 bucket and at most 10 per table, pending nodes included — for every `now` (pending timeouts
@@ -25,13 +29,14 @@ elapsing at any point), provided records are filed under their own node id. -/
 theorem step_ipInv (keyOf : Val → Nat) (mi pt : Nat) (t : Table Val) (op : Op Val)
     (hT : TInv (ipCfg mi pt) t) (hI : IpInv t) (hK : ValuesMatchKeys keyOf t)
     (hop : op.Respects keyOf) :
-    IpInv (t.step (ipCfg mi pt) op) ∧ ValuesMatchKeys keyOf (t.step (ipCfg mi pt) op) := by
-  sorry
+    IpInv (t.step (ipCfg mi pt) op) ∧ ValuesMatchKeys keyOf (t.step (ipCfg mi pt) op) :=
+  (Ip.step_all keyOf mi pt t op hT hI hK hop).2
 
 /-- At no time does a bucket hold more than 2, or the table more than 10, nodes of one /24. -/
 theorem reachable_ipInv (keyOf : Val → Nat) (mi pt localKey : Nat) (ops : List (Op Val))
     (hops : ∀ op ∈ ops, op.Respects keyOf) :
-    IpInv (ops.foldl (Table.step (ipCfg mi pt)) (Table.init localKey)) := by
-  sorry
+    IpInv (ops.foldl (Table.step (ipCfg mi pt)) (Table.init localKey)) :=
+  Ip.foldl_all keyOf mi pt ops _ hops (init_tinv _ localKey) (Ip.init_ipInv localKey)
+    (Ip.init_vmk keyOf localKey)
 
 end Discv5.KB
